@@ -11,9 +11,10 @@
               len(rule_to_strategy); len(eqv_rule_to_strategy); sorted _already_empty ]
    mode = 100 (compatible extension): the decision procedures of Searcher/Contracts.v instead of a run;
      input has an 8th field `pack` (the strategies the queue may hand out); output =
-     [ pe_contractb T pack; sym_contractb T; sym_unaryb T; packets_inb pack packets; items_plainb T ] *)
+     [ pe_contractb T pack; sym_contractb T; sym_unaryb T; packets_inb pack packets; items_plainb T ]
+   mode = 101 (compatible extension): output = [ sym_fwdb T ] (Searcher/SymFwd.v) *)
 From Coq Require Import ZArith List Bool.
-From CSS Require Import Base.Sx Base.PyList ClassDB.Model Searcher.Model Searcher.Contracts.
+From CSS Require Import Base.Sx Base.PyList ClassDB.Model Searcher.Model Searcher.Contracts Searcher.SymFwd.
 Import ListNotations.
 Open Scope Z_scope.
 
@@ -75,6 +76,11 @@ Definition run_c04 (inp : sx) : sx :=
     let pack := sx_Zs (sx_nth inp 7) in
     L [ of_bool (pe_contractb T pack); of_bool (sym_contractb T); of_bool (sym_unaryb T);
         of_bool (packets_inb pack ps); of_bool (items_plainb T) ]
+  else if g 0%nat =? 101 then
+    (* mode 101 (compatible extension): the decider of sym_fwd (Searcher/SymFwd.v), the hypothesis of the
+       one-sided emptiness theorems C04_dropped_only_if_empty_fwd / C04_set_empty_true_truthful /
+       C04_cache_empty_truthful_one_sided *)
+    L [ of_bool (sym_fwdb T) ]
   else
   let s := run_search T (g 0%nat) (Z.to_nat (g 3%nat)) (negb (g 2%nat =? 0)) (negb (g 1%nat =? 0))
              ans (g 4%nat) ps in
